@@ -115,8 +115,7 @@ def m_flip(interp, a, axis=None):
 def m_empty(interp, shape, dtype=float, **kw):
     c = ctx()
     if not contains_sym(shape):
-        # still symbolic contents: np.empty returns arbitrary memory
-        pass
+        return _native(np.empty, shape, dtype=dtype, **kw)
     shape = tuple(interp.iterate(shape)) if isinstance(shape, (list, tuple)) else (shape,)
     for s in shape:
         if interp.truth(s < 0):
@@ -209,11 +208,45 @@ def m_array_equal(interp, a, b):
     raise Unsupported("np.array_equal on symbolic arrays")
 
 
-@model(np.concatenate, np.stack)
-def m_concat(interp, *a, **k):
-    if contains_sym(a):
-        raise Unsupported("np.concatenate/np.stack of symbolic arrays (handled by contracts)")
-    return _native(np.concatenate, *a, **k)
+@model(np.concatenate)
+def m_concatenate(interp, arrays, axis=0, **k):
+    if not contains_sym(arrays):
+        return _native(np.concatenate, arrays, axis=axis, **k)
+    arrs = interp.iterate(arrays)
+    if k or not all(isinstance(a, SArr) for a in arrs) or not arrs:
+        raise Unsupported("np.concatenate form")
+    c = ctx()
+    nd = arrs[0].ndim
+    ax = axis % nd
+    for a in arrs[1:]:
+        if a.ndim != nd:
+            raise RaiseSig(ValueError("all the input array dimensions must match"))
+        for d in range(nd):
+            if d != ax and not interp.truth(a.shape[d] == arrs[0].shape[d]):
+                raise RaiseSig(ValueError("all the input array dimensions except for the concatenation axis must match exactly"))
+    c.trust("np.concatenate: arrays laid one after the other along the axis")
+    offs = [0]
+    for a in arrs:
+        offs.append(offs[-1] + a.shape[ax])
+    shape = list(arrs[0].shape)
+    shape[ax] = offs[-1]
+
+    def fn(*idx):
+        r = None
+        for k_ in range(len(arrs) - 1, -1, -1):
+            j = list(idx)
+            j[ax] = idx[ax] - offs[k_]
+            v = arrs[k_].elem(*j)
+            r = v if r is None else ite(idx[ax] < offs[k_ + 1], v, r)
+        return r
+    return SArr.from_fn(fn, shape, np.result_type(*[a.dtype for a in arrs]))
+
+
+@model(np.stack)
+def m_stack(interp, arrays, axis=0, **k):
+    if contains_sym(arrays):
+        raise Unsupported("np.stack of symbolic arrays")
+    return _native(np.stack, arrays, axis=axis, **k)
 
 
 @model(np.can_cast)
